@@ -230,9 +230,9 @@ func refNumber(t string) numTok {
 
 // C14: string and number literals decode like protoc.
 func runC14(h *hx.H) {
-	nStr, nNum := 3, 4
+	nStr, nNum := 4, 5
 	if h.Thorough() {
-		nStr, nNum = 4, 5
+		nStr, nNum = 5, 6
 	}
 	h.Rule = fmt.Sprintf("inputs: every string body of <=%d units over {\\, x, X, u, U, 0, 3, 7, 8, 9, a, f, g, n, \", ', ?, NUL, LF, e-acute} in both quote kinds, every \\uXXXX and \\UXXXXXXXX with digits from {0, 1, D, F, 8}, as the default of a bytes field; every numeral text of <=%d characters over {0,1,7,8,9,.,e,E,x,X,+,-,f,_} plus boundary numerals around 2^31, 2^32, 2^63, 2^64 in decimal, octal and hex, as the default of int64, uint64 and double fields; each compiled by the real compiler; oracle: a reference model of protoc's tokenizer (ConsumeString/ParseStringAppend, ConsumeNumber, ParseInteger/ParseFloat) and of the default-value parser's token expectations: same accept/reject and same decoded bytes / numeric value; four sub-alphabets where protoc's behaviour cannot be established offline (octal escapes above \\377, surrogate code points, \\U above 10FFFF, the upper-case \\X escape) are excluded and counted; non-trivial = literal with an escape, or a numeral that is not plain decimal", nStr, nNum)
 	h.Assumptions = append(h.Assumptions, "protoc itself is not available: the oracle is a reference model of its tokenizer written from the documented algorithm (DESIGN Appendix C)")
